@@ -1159,7 +1159,7 @@ mod_auth_digest_get (request_st * const r, void *p_d, const struct http_auth_req
             && ae->dlen == ai->dlen
             && ae->klen == ulen
             && 0 == memcmp(ae->k, user, ulen)
-            && (ae->k == ae->username || ai->userhash)) {
+            && (ae->k == ae->username ? !ai->userhash : ai->userhash)) {
             memcpy(ai->digest, ae->pwdigest, ai->dlen);
             if (ae->k != ae->username) { /*(userhash was key; copy username)*/
                 if (__builtin_expect( (ae->ulen <= sizeof(ai->userbuf)), 1)) {
